@@ -277,7 +277,7 @@ pub fn run(ctx: &Ctx) -> i32 {
         }
       }
       Job::C1Class(d) => {
-        for h in class_cells(*d) {
+        for h in class_cells(*d).into_iter().chain(carry_cells(*d, false).into_iter()) {
           part.stratum("claim1-class-cells", 1, 1);
           if let Some(v) = check_claim1(*d, h, &mut part) {
             part.viol(v);
